@@ -1,6 +1,8 @@
 package readline
 
 import (
+	"github.com/reeflective/readline/internal/core"
+	"github.com/reeflective/readline/internal/history"
 	"github.com/reeflective/readline/internal/zzverif"
 )
 
@@ -11,7 +13,12 @@ import (
 //   redo:   n undos then n redos restore the buffer that preceded them (when every undo
 //           changed the text)
 //   branch: one undo, one edit, then redo must leave the text alone
-// params: s, variant
+// param prev (optional): an earlier Readline call on the same shell precedes the checked
+// one — typed (text + Enter), hist (text, previous-history, Enter on the history line),
+// abort (text + Ctrl-C), undo (text, undo, Enter), walkback (text, up, down, Enter). "The line
+// being edited" is the line of the checked call: its initial content is empty and nothing of
+// the earlier call may be shown by undo.
+// params: s, variant, prev
 func ZZ_C07_Undo() {
 	s := zzverif.ParamInt("s")
 	variant := zzverif.Param("variant")
@@ -129,6 +136,28 @@ func ZZ_C07_Undo() {
 			prev = buf
 		}
 		wait++
+	}
+	if prevCall := zzverif.Param("prev"); prevCall != "" {
+		src := history.NewInMemoryHistory()
+		src.Write("hh")
+		rl.History.Add("zz", src)
+		first := &zzverif.Script{}
+		switch prevCall {
+		case "typed":
+			first.Chunks = [][]byte{[]byte("x"), []byte("y"), []byte("\r")}
+		case "hist":
+			first.Chunks = [][]byte{[]byte("x"), []byte("y"), []byte("\x10"), []byte("\r")}
+		case "abort":
+			first.Chunks = [][]byte{[]byte("x"), []byte("y"), []byte("\x03")}
+		case "undo":
+			first.Chunks = [][]byte{[]byte("x"), []byte("y"), []byte(undoKey), []byte("\r")}
+		case "walkback":
+			first.Chunks = [][]byte{[]byte("x"), []byte("y"), []byte("\x10"), []byte("\x0e"), []byte("\r")}
+		}
+		core.Stdin = first
+		rl.Readline()
+		zzverif.Reach("first-call-returned")
+		core.Stdin = script
 	}
 	rl.Readline()
 }
